@@ -31,11 +31,12 @@ type OpResult struct {
 
 // Plan identifies an experiment for replay.
 type Plan struct {
-	Seed   int64 `json:"seed"`
-	Ops    int   `json:"ops"`
-	First  int   `json:"first"`
-	Second int   `json:"second"`
-	Random bool  `json:"random"`
+	Seed   int64  `json:"seed"`
+	Ops    int    `json:"ops"`
+	Sys    string `json:"sys"` // system call whose First-th (then Second-th) invocation is killed
+	First  int    `json:"first"`
+	Second int    `json:"second"`
+	Random bool   `json:"random"`
 }
 
 // Event is one line for TraceStoreCrash (uniform fields).
@@ -149,7 +150,8 @@ type childRun struct {
 }
 
 type killMode struct {
-	injectAt  int    // >0: strace injects SIGKILL at the j-th matching system call
+	injectAt  int    // >0: strace injects SIGKILL at the entry of the j-th invocation of injectSys
+	injectSys string // (strace counts invocations per system call and per thread)
 	countTo   string // != "": strace writes its log there (counting run)
 	afterLine int    // >=0 with random: kill after this many protocol lines + a random pause
 	random    bool
@@ -162,7 +164,7 @@ func runChild(db string, seed int64, n, from int, km killMode) (*childRun, error
 	switch {
 	case km.injectAt > 0:
 		cmd = exec.Command("timeout", "-s", "KILL", "300", "strace", "-f", "-o", "/dev/null", "-e", "trace="+syscallSet,
-			"-e", fmt.Sprintf("inject=%s:signal=SIGKILL:when=%d", syscallSet, km.injectAt), os.Args[0])
+			"-e", fmt.Sprintf("inject=%s:signal=SIGKILL:when=%d", km.injectSys, km.injectAt), os.Args[0])
 	case km.countTo != "":
 		cmd = exec.Command("timeout", "-s", "KILL", "300", "strace", "-f", "-o", km.countTo, "-e", "trace="+syscallSet, os.Args[0])
 	default:
@@ -237,39 +239,40 @@ func straceWorks(scratch string) error {
 }
 
 // countSyscalls runs the whole history once under strace (no kill) and counts the child's
-// write/sync system calls.
-func countSyscalls(scratch string, seed int64, n int) (int, error) {
+// write/sync system calls, per system call.
+func countSyscalls(scratch string, seed int64, n int) (map[string]int, error) {
 	db := filepath.Join(scratch, fmt.Sprintf("count-%d.db", seed))
 	log := filepath.Join(scratch, fmt.Sprintf("count-%d.strace", seed))
 	defer os.Remove(db)
 	defer os.Remove(log)
 	r, err := runChild(db, seed, n, 0, killMode{countTo: log})
 	if err != nil {
-		return 0, err
+		return nil, err
 	}
 	if !r.done {
-		return 0, fmt.Errorf("counting run did not finish (opened=%v begun=%d %s %s)", r.opened, r.begun, r.openFail, r.opErr)
+		return nil, fmt.Errorf("counting run did not finish (opened=%v begun=%d %s %s)", r.opened, r.begun, r.openFail, r.opErr)
 	}
 	b, err := os.ReadFile(log)
 	if err != nil {
-		return 0, err
+		return nil, err
 	}
-	w := 0
+	w := map[string]int{}
 	for _, l := range strings.Split(string(b), "\n") {
 		for _, s := range strings.Split(syscallSet, ",") {
 			if strings.Contains(l, " "+s+"(") || strings.HasPrefix(l, s+"(") {
-				w++
+				w[s]++
 				break
 			}
 		}
 	}
-	if w == 0 {
-		return 0, fmt.Errorf("strace log shows no write/sync system calls")
+	if len(w) == 0 {
+		return nil, fmt.Errorf("strace log shows no write/sync system calls")
 	}
 	return w, nil
 }
 
 type crashPlan struct {
+	sys           string
 	first, second int
 	random        bool
 }
@@ -283,7 +286,7 @@ func experiment(c *lib.Ctx, scratch, tag string, seed int64, n int, plan crashPl
 	rng := rand.New(rand.NewSource(seed ^ int64(plan.first)<<20 ^ boolInt(plan.random)<<40))
 	first := blank("Reset")
 	first.Tag = tag
-	first.Plan = Plan{Seed: seed, Ops: n, First: plan.first, Second: plan.second, Random: plan.random}
+	first.Plan = Plan{Seed: seed, Ops: n, Sys: plan.sys, First: plan.first, Second: plan.second, Random: plan.random}
 	evs := []Event{first}
 	from := 0
 	for seg := 0; seg < 2 && from < len(ops); seg++ {
@@ -291,9 +294,9 @@ func experiment(c *lib.Ctx, scratch, tag string, seed int64, n int, plan crashPl
 		if plan.random {
 			km = killMode{random: true, afterLine: rng.Intn(2*(len(ops)-from) + 3), pauseUs: rng.Intn(1500)}
 		} else if seg == 0 {
-			km.injectAt = plan.first
+			km.injectAt, km.injectSys = plan.first, plan.sys
 		} else {
-			km.injectAt = plan.second
+			km.injectAt, km.injectSys = plan.second, plan.sys
 		}
 		r, err := runChild(db, seed, n, from, km)
 		if err != nil {
